@@ -184,8 +184,8 @@ def proto_consts(n, ts, menu, order, foci, fasts=(False, True)):
     return dict(ped_consts(("fresh",), n, ts, fasts, maxf=1, menu=menu, order=order), Foci=list(foci))
 
 
-def rabin_consts(n, t, order):
-    return {"N": n, "T": t, "MaxF": 1, "Rec": False, "OrdMode": order}
+def rabin_consts(n, ts, order):
+    return {"N": n, "Ts": list(ts), "MaxF": 1, "Rec": False, "OrdMode": order}
 
 
 def c11(ctx):
@@ -196,23 +196,28 @@ def c11(ctx):
     f4 = ped_consts(("fresh",), 4, (3, 4))
     shapes = ("same", "overlap", "disjoint", "grow", "shrink", "shrink3")
     rs = ped_consts(shapes, 3, (2,), maxf=2)
+    raise5 = ped_consts(("raise5",), 3, (2,), maxf=2, menu="fc")
     P = dict(module="DKGProtocol", spec="PSpec", invariants=PROTO_INV)
     R = dict(module="DKGRabin", invariants=RABIN_INV)
     if q:
         # every BFS run below is exhaustive over its menu and checks the requirement invariants while it emits behaviours
-        par.go(gen_replay, ctx, binary, "api", "fresh_n3", dict(f3, OrdMode="one"), 3000)
-        par.go(gen_replay, ctx, binary, "api", "fresh_n4", dict(f4, OrdMode="one", MenuLvl="small"), 2000)
+        par.go(gen_replay, ctx, binary, "api", "fresh_n3", dict(f3, OrdMode="one"), 3000, workers=3)
+        par.go(gen_replay, ctx, binary, "api", "fresh_n4", dict(f4, OrdMode="one", MenuLvl="small"), 2000, workers=4)
         par.go(gen_replay, ctx, binary, "api", "reshare_honest", dict(rs, OrdMode="glob", MaxF=0), 0)
         par.go(gen_replay, ctx, binary, "api", "reshare_sim", dict(rs, OrdMode="two", MenuLvl="small"), 0,
                simulate="num=150", depth=14)
         par.go(gen_replay, ctx, binary, "proto", "proto_n3_eq", proto_consts(3, (2,), "eq", "few", ("deal",), fasts=(True,)), 1200, **P)
         par.go(gen_replay, ctx, binary, "proto", "proto_n3_sim", proto_consts(3, (2,), "proto", "few", ("deal", "resp", "just")), 800,
                simulate="num=50", depth=12, **P)
-        par.go(gen_replay, ctx, binary, "rabin", "rabin_n3", rabin_consts(3, 2, "two"), 1500, **R)
+        par.go(gen_replay, ctx, binary, "rabin", "rabin_n3", rabin_consts(3, (2, 3), "two"), 1500, **R)
         par.go(gen_replay, ctx, binary, "api", "fresh_n5_sim", ped_consts(("fresh",), 5, (3, 4), maxf=2, menu="small", order="two"), 0,
                simulate="num=60", depth=14)
         par.go(gen_replay, ctx, binary, "api", "fresh_n6_sim", ped_consts(("fresh",), 6, (4, 5), maxf=2, menu="small", order="two"), 0,
                simulate="num=40", depth=14)
+        # threshold boundaries: resharing that raises the threshold (2-of-3 -> 3-of-5) with up to two false-complaining
+        # joiners (OldThreshold <= complaints < Threshold); rabin at t = n (exactly t qualified dealers)
+        par.go(gen_replay, ctx, binary, "api", "reshare_raise5", dict(raise5, OrdMode="one"), 0)
+        par.go(gen_replay, ctx, binary, "rabin", "rabin_n4t4", rabin_consts(4, (4,), "two"), 0, **R)
         par.go(trace_repo_tests, ctx, "trace_repo_tests")
         par.go(trace_replays, ctx, binary, "trace_n4_sim", ped_consts(("fresh", "overlap", "disjoint"), 4, (3,), maxf=1, menu="small", order="two"), 0,
                simulate="num=40", depth=14)
@@ -223,20 +228,24 @@ def c11(ctx):
         par.go(ped_run, ctx, "mc_fresh_n4", dict(f4, OrdMode="all"), emit=False, workers=4, **TO)
         par.go(ped_run, ctx, "mc_reshare", dict(rs, OrdMode="two"), emit=False, workers=4, **TO)
         par.go(ped_run, ctx, "mc_proto_n3", proto_consts(3, (2, 3), "proto", "all", ("deal", "resp", "just")), emit=False, workers=4, **P, **TO)
-        par.go(ped_run, ctx, "mc_rabin_n3", rabin_consts(3, 2, "all"), emit=False, **R, **TO)
+        par.go(ped_run, ctx, "mc_rabin_n3", rabin_consts(3, (2, 3), "all"), emit=False, **R, **TO)
         # behaviours for the real code
         par.go(gen_replay, ctx, binary, "api", "fresh_n3", dict(f3, OrdMode="two"), 0, **TO)
         par.go(gen_replay, ctx, binary, "api", "fresh_n4", dict(f4, OrdMode="glob"), 40000, **TO)
         par.go(gen_replay, ctx, binary, "api", "reshare", dict(rs, OrdMode="one", MenuLvl="small", MaxF=1), 20000, **TO)
         par.go(gen_replay, ctx, binary, "api", "reshare_sim", dict(rs, OrdMode="two", MenuLvl="small"), 0,
                simulate="num=400", depth=14, **TO)
+        par.go(gen_replay, ctx, binary, "api", "reshare_raise5", dict(raise5, OrdMode="two"), 12000, **TO)
+        par.go(gen_replay, ctx, binary, "api", "reshare_raise5_sim", dict(raise5, OrdMode="two", MenuLvl="small"), 0,
+               simulate="num=200", depth=16, **TO)
+        par.go(gen_replay, ctx, binary, "api", "fresh_n5_fc", ped_consts(("fresh",), 5, (3,), maxf=2, menu="fc", order="one"), 6000, **TO)
         par.go(gen_replay, ctx, binary, "proto", "proto_n3_eq", proto_consts(3, (2,), "eq", "all", ("deal",), fasts=(True,)), 12000, **P, **TO)
         par.go(gen_replay, ctx, binary, "proto", "proto_n3_eq_rj", proto_consts(3, (2,), "eq", "few", ("resp", "just"), fasts=(True,)), 6000, **P, **TO)
         par.go(gen_replay, ctx, binary, "proto", "proto_n3_sim", proto_consts(3, (2,), "proto", "few", ("deal", "resp", "just")), 0,
                simulate="num=200", depth=12, **P, **TO)
         par.go(gen_replay, ctx, binary, "proto", "proto_n4_eq", proto_consts(4, (3,), "eq", "min", ("deal",), fasts=(True,)), 4000, **P, **TO)
-        par.go(gen_replay, ctx, binary, "rabin", "rabin_n3", rabin_consts(3, 2, "two"), 0, **R, **TO)
-        par.go(gen_replay, ctx, binary, "rabin", "rabin_n4", rabin_consts(4, 3, "two"), 8000, **R, **TO)
+        par.go(gen_replay, ctx, binary, "rabin", "rabin_n3", rabin_consts(3, (2, 3), "two"), 0, **R, **TO)
+        par.go(gen_replay, ctx, binary, "rabin", "rabin_n4", rabin_consts(4, (3, 4), "two"), 8000, **R, **TO)
         for n, ts, num in ((5, (3, 4), 400), (6, (4, 5), 300), (7, (4, 5), 120), (8, (5, 6), 80), (9, (5, 6), 60)):
             par.go(gen_replay, ctx, binary, "api", "fresh_n%d_sim" % n,
                    ped_consts(("fresh",), n, ts, maxf=n - min(ts), menu="small", order="two"), 0,
